@@ -96,6 +96,9 @@ class PauliInteractionGate(gate_features.InterchangeableQubitsGate, eigen_gate.E
             value.PeriodicValue(self.exponent, 2),
         )
 
+    def _value_equality_approximate_values_(self):
+        return self._value_equality_values_()
+
     def qubit_index_to_equivalence_group_key(self, index: int) -> int:
         if self.pauli0 == self.pauli1 and self.invert0 == self.invert1:
             return 0
